@@ -844,7 +844,75 @@ def o_entry(case, T):
     T.cls("mode:" + case["mode"])
 
 
+# ----------------------------------------------------------------------------- utm alias naming the source's own CRS
+@st.composite
+def s_utm_alias_same(draw):
+    zone = draw(st.integers(1, 60))
+    south = draw(st.booleans())
+    lon = -180 + 6 * (zone - 1) + draw(st.floats(1.0, 5.0))
+    lat = draw(st.floats(-60.0, -5.0) if south else st.floats(5.0, 60.0))
+    res = draw(st.sampled_from([10.0, 30.0, 100.0, 250.0]))
+    shape = draw(st.sampled_from([[5, 7], [64, 64], [300, 200], [1, 1]]))
+    frac = [draw(st.sampled_from([0.0, 0.0, 0.3, 0.5])), draw(st.sampled_from([0.0, 0.0, 0.7]))]  # unaligned origins too
+    alias = draw(st.sampled_from(["utm", "utm", "utm-s" if south else "utm-n", "UTM"]))
+    entry = draw(st.sampled_from(["compute_output_geobox", "to_crs", "xr"]))
+    rot = draw(st.sampled_from([0.0, 0.0, 10.0]))
+    return {"zone": zone, "south": south, "lonlat": [lon, lat], "res": res, "shape": shape, "frac": frac, "alias": alias, "entry": entry, "rot": rot}
+
+
+def o_utm_alias_same(case, T):
+    """'asking for the source's own CRS with default options returns the source GeoBox unchanged' - also when the
+    request is a utm alias that resolves to the CRS the source is already in."""
+    from affine import Affine
+    from odc.geo.geobox import GeoBox
+    from odc.geo.overlap import compute_output_geobox
+    from pyproj import Transformer
+
+    epsg = (32700 if case["south"] else 32600) + case["zone"]
+    x, y = Transformer.from_crs(4326, epsg, always_xy=True).transform(*case["lonlat"])
+    res = case["res"]
+    ny, nx = case["shape"]
+    tx = (math.floor(x / res) + case["frac"][0]) * res
+    ty = (math.floor(y / res) + case["frac"][1]) * res
+    A = Affine.translation(tx, ty) * Affine.rotation(case["rot"]) * Affine.scale(res, -res)
+    src = GeoBox((ny, nx), A, epsg)
+    # precondition, decided independently of the code under test: the raster lies inside one zone and hemisphere
+    tr = Transformer.from_crs(epsg, 4326, always_xy=True)
+    cx, cy = [], []
+    for px, py in ((0, 0), (nx, 0), (nx, ny), (0, ny), (nx / 2, ny / 2)):
+        wx, wy = A * (px, py)
+        lo, la = tr.transform(wx, wy)
+        cx.append(lo)
+        cy.append(la)
+    lon0 = -180 + 6 * (case["zone"] - 1)
+    if not (lon0 + 0.2 < min(cx) and max(cx) < lon0 + 5.8 and (max(cy) < -0.5 if case["south"] else min(cy) > 0.5)):
+        T.exclude("raster_leaves_its_zone")
+        return
+    if case["entry"] == "compute_output_geobox":
+        out = compute_output_geobox(src, case["alias"])
+    elif case["entry"] == "to_crs":
+        out = src.to_crs(case["alias"])
+    else:
+        from odc.geo.xr import xr_zeros
+
+        if case["rot"] or 1 in (ny, nx):
+            out = src.to_crs(case["alias"])
+        else:
+            xx = xr_zeros(src, dtype="uint8")
+            out = xx.odc.output_geobox(case["alias"])
+            src = xx.odc.geobox
+    require(out.crs is not None and out.crs.epsg == epsg, "%r requested for a raster in EPSG:%d resolved to %r", case["alias"], epsg, out.crs.epsg)
+    require(out is src or (tuple(out.shape) == tuple(src.shape) and tuple(out.affine)[:6] == tuple(src.affine)[:6]),
+            "source already in EPSG:%d, request %r with default options: expected the source GeoBox unchanged, got shape %r affine %r (source shape %r affine %r)",
+            epsg, case["alias"], tuple(out.shape), tuple(out.affine)[:6], tuple(src.shape), tuple(src.affine)[:6])
+    T.nontrivial((case["zone"], case["south"], case["alias"], case["entry"], case["rot"], tuple(case["frac"])))
+    T.cls("alias:" + case["alias"].lower())
+    T.cls("entry:" + case["entry"])
+    T.cls("unaligned" if any(case["frac"]) else "aligned")
+
+
 def build(chk: Check) -> None:
+    chk.sub("utm_alias_same", o_utm_alias_same, strategy=s_utm_alias_same(), n={"quick": 120, "thorough": 4000}, budget_s={"quick": 40, "thorough": 100})
     # cost per case is dominated by the code under test (~25 ms: pure-python densify of the buffered footprint;
     # ~100 ms for utm* because every request queries the CRS database)
     chk.sub("general", o_main, strategy=s_case(), n={"quick": 1600, "thorough": 60000}, budget_s={"quick": 60, "thorough": 420})
